@@ -273,6 +273,14 @@ var c03Atoms = []func() *gen.Node{
 	func() *gen.Node { return &gen.Node{K: gen.KArr, Kids: []*gen.Node{gen.Id("q"), gen.Num("1")}} },
 	func() *gen.Node { return &gen.Node{K: gen.KObj} },
 	func() *gen.Node { return &gen.Node{K: gen.KObj, Kids: []*gen.Node{gen.Id("k"), gen.Num("1")}} },
+	// every key form the parser produces: string, number, keyword-literal spelling, and an array literal (what the
+	// parser makes of a computed key `{[q]: 1}`)
+	func() *gen.Node {
+		return &gen.Node{K: gen.KObj, Kids: []*gen.Node{gen.Str("s t"), gen.Num("1"), gen.Num("7"), gen.Id("a"), gen.Id("true"), gen.Num("2")}}
+	},
+	func() *gen.Node {
+		return &gen.Node{K: gen.KObj, Kids: []*gen.Node{{K: gen.KArr, Kids: []*gen.Node{gen.Id("q")}}, gen.Num("1")}}
+	},
 	func() *gen.Node {
 		return &gen.Node{K: gen.KFunc, Params: []string{"x"}, Kids: []*gen.Node{{K: gen.KReturn, Kids: []*gen.Node{gen.Id("x")}}}}
 	},
